@@ -150,7 +150,20 @@ func cmdCheck(args []string) int {
 	opaque := map[string]int{}
 	var functions []string
 	pathCuts := 0
-	for _, key := range ps.Functions {
+	// Dependency closure: verification is modular, so a function listed for this property is checked
+	// against the CONTRACTS of its callees. Every callee contract relied on that is not a trusted
+	// (assumed) one is therefore verified here as well - otherwise a change inside such a callee
+	// would go unnoticed by this property's check. The work list grows until nothing new is used.
+	work := append([]string(nil), ps.Functions...)
+	seen := map[string]bool{}
+	var closure []string
+	for len(work) > 0 {
+		key := work[0]
+		work = work[1:]
+		if seen[key] {
+			continue
+		}
+		seen[key] = true
 		if g.contracts[key] == nil {
 			obls = append(obls, &Obligation{Name: key + "#contract", Kind: "unsupported", Fn: key, Goal: TTrue,
 				Err: "spec/properties.json names this function but no contract for it was found in the contract files"})
@@ -167,8 +180,20 @@ func cmdCheck(args []string) int {
 				opaque[k] += n
 			}
 			pathCuts += fx.pathCuts
+			var used []string
+			for k := range fx.usedCtr {
+				if !seen[k] && g.contracts[k] != nil && !g.contracts[k].Trusted {
+					used = append(used, k)
+				}
+			}
+			sort.Strings(used)
+			for _, k := range used {
+				work = append(work, k)
+				closure = append(closure, k)
+			}
 		}
 	}
+	_ = closure
 	// requires-propagation: every function in the loaded packages that calls a function whose
 	// contract (in this property's list) has a precondition is verified too, so that a new,
 	// unguarded path to it is an obligation even if that caller has no contract of its own.
